@@ -346,6 +346,36 @@ def C02(tier, seed):
         res = _run(pid, mon, scens, wd)
         C.log(f"[{pid}] executed {res['scenarios']} scenarios / {res['events']} events on the real code; judged by "
               f"{mon}.tla in {res['wall_s']}s; {len(res['bads'])} predicate failures; counters {res['counts']}")
+        # "the global max-level shortcut never hides a record that the specification enables" also while the specification
+        # is being replaced from two threads: it holds because the gate is written while the specification lock is held.
+        # Probe that atomicity (as C12 does); only if it is NOT implemented, replay the interleavings of the as-coded model
+        # and judge the final gate with MonC12.
+        sc0 = len(scens)
+        probe = [dict(_conc([[{"op": "Set", "spec": CS[0]}], [{"op": "Set", "spec": CS[1]}]],
+                            [{"t": 1, "st": "prep"}, {"t": 2, "st": "prep"}, {"t": 1, "st": "spec"},
+                             {"t": 2, "st": "spec"}, {"t": 1, "st": "gate"}, {"t": 2, "st": "gate"}], "probe"),
+                      sc=sc0 + 1, block_ms=1000)]
+        pf, ptf = os.path.join(wd, "probe.ndjson"), os.path.join(wd, "probe-trace.ndjson")
+        open(pf, "w").write(json.dumps(probe[0]) + "\n")
+        C.exec_flw(pf, ptf, sub=SUB)
+        locked = any(json.loads(x).get("ret") == "blocked" for x in open(ptf))
+        C.log(f"[{pid}] atomicity probe: the gate is written "
+              + ("while the specification lock is held" if locked else "after the specification lock is released"))
+        if not locked:
+            cs = []
+            for r in _generate(pid, wd, "MCLogSpec.tla", "MCLogSpec_C12gen2.cfg", st):
+                cs.append(_conc(r["cfg"]["progs"], [s_ for s_ in r["steps"] if "t" in s_], "tlc:MCLogSpec_C12gen2.cfg",
+                                init=r["steps"][0]["spec"]))
+            cs = [dict(c_, sc=sc0 + 2 + k) for k, c_ in enumerate(cs)]
+            cs = [dict([("sc", c_["sc"])] + [(k_, v_) for k_, v_ in c_.items() if k_ != "sc"]) for c_ in cs]
+            res2 = _run(pid, "MonC12", cs, wd)
+            C.log(f"[{pid}] {res2['scenarios']} interleavings of two concurrent set_new_spec calls replayed; judged by MonC12.tla; "
+                  f"{len(res2['bads'])} predicate failures")
+            res["bads"] += res2["bads"]
+            res["traces"] += res2["traces"]
+            res["scen_files"] += res2["scen_files"]
+            res["scenarios"] += res2["scenarios"]
+            res["events"] += res2["events"]
         distinct = len({json.dumps([s["steps"], s["writer"], s["lf"]], sort_keys=True) for s in scens
                         if any(x["spec"]["f"] or x["spec"]["d"] >= 0 for x in s["steps"])})
         return _finish(pid, tier, seed, t0, build_s, st, scens, res, mon,
